@@ -445,6 +445,56 @@ def wConform (b : Nat) (evs : List Event) : Option (Nat × Event) :=
       | next => go (k + 1) next rest
   go 0 [{ (initSt 1 b) with wpc := .loopRun, spawned := true, running := true, mon := {} }] evs
 
+/-! ### Producer conformance: the model's `Enqueue`, driven by what one real producer was observed to do
+
+`pconf p=<id> <events>`: the events of producer `id` (`ec.p.o`, `hk.p`, `sn.o` / `sd.o` issued by *its* call of
+`BatchWriteScheduled`, `er.p.o`) in their order.  The acceptor runs the model's own `stepProd` for this one
+producer in a permissive environment (before every step `running` and the object's flag may be either value, the
+mutex is free, the queue has room): the model must be able to emit exactly the observed sequence — after the call
+either the return at once (the running check failed: no yield point, no flag operation) or the yield point, then
+exactly one flag test-and-set, then the return. -/
+
+def pEnvs (s : St) (pc : PPc) (cur : Nat) : List St :=
+  let s1 : St := { s with mu := false, queue := [], qsize := 1, tr := [] }
+  match pc with
+  | .chkRun => [{ s1 with running := true }, { s1 with running := false }]
+  | .cas => [{ s1 with flag := upd s1.flag cur true }, { s1 with flag := upd s1.flag cur false }]
+  | _ => [s1]
+
+/-- producer states (shared state, pc, current object) that emit `e` next, through at most `fuel` silent steps -/
+def pReach (id : Nat) (e : Event) : Nat → St × PPc × Nat → List (St × PPc × Nat)
+  | 0, _ => []
+  | fuel + 1, (s, pc, cur) =>
+    let script : List Nat := match e with | .enqCall _ o => [o] | _ => []
+    (pEnvs s pc cur).flatMap (fun s0 =>
+      (stepProd s0 id pc cur script).flatMap (fun (s', t') =>
+        match t' with
+        | .prod _ pc' cur' _ =>
+          match s'.tr with
+          | [] => pReach id e fuel (s', pc', cur')
+          | e' :: _ => if e' = e then [(s', pc', cur')] else []
+        | _ => []))
+
+def pDedup (l : List (St × PPc × Nat)) : List (St × PPc × Nat) :=
+  (l.foldl (fun (acc : List (St × PPc × Nat)) x =>
+    if acc.any (fun a => a.2.1 == x.2.1 && a.2.2 == x.2.2 && a.1.once == x.1.once) then acc else x :: acc) []).reverse
+
+def pConform (id : Nat) (evs : List Event) : Option (Nat × Event) :=
+  let rec go (k : Nat) (cands : List (St × PPc × Nat)) : List Event → Option (Nat × Event)
+    | [] => none
+    | e :: rest =>
+      match pDedup (cands.flatMap (pReach id e 16)) with
+      | [] => some (k, e)
+      | next => go (k + 1) next rest
+  go 0 [({ (initSt 1 1) with mon := {} }, .idle, 0)] evs
+
+def pconfLine (ws : List String) : String :=
+  let id := kvArg "p" ws
+  let evs := ws.filterMap (fun w => if w.startsWith "p=" then none else parseEvent (w.splitOn "."))
+  match pConform id evs with
+  | none => "conforms"
+  | some (k, e) => s!"deviates at {k}: {e.render}"
+
 def wconfLine (ws : List String) : String :=
   let b := match kvArg "b" ws with | 0 => 10000 | n => n
   let evs := ws.filterMap (fun w => if w.startsWith "b=" then none else parseEvent (w.splitOn "."))
@@ -462,6 +512,7 @@ def stepLine (m : Mon) (ws : List String) : Mon × String :=
   | ["end"] => (m, showVerdict true m.finalVerdict)
   | "model" :: rest => (m, modelLine rest)
   | "wconf" :: rest => (m, wconfLine rest)
+  | "pconf" :: rest => (m, pconfLine rest)
   | _ =>
     match parseEvent ws with
     | some e => let m' := m.step e; (m', showVerdict false m'.verdict)
